@@ -112,11 +112,15 @@ def run(chk):
     f32 = lambda x: _st.unpack("<f", _st.pack("<f", x))[0]  # noqa  (the checker's own model of a REAL32 value)
     fprobes = [(O.DATA_TYPES["REAL32"][0], f32(3.141592653589793), "REAL32"), (O.DATA_TYPES["REAL32"][0], 16777215.0, "REAL32"), (O.DATA_TYPES["REAL32"][0], f32(1 + 2 ** -23), "REAL32"),
                (O.DATA_TYPES["REAL32"][0], f32(-0.1), "REAL32"), (O.DATA_TYPES["REAL32"][0], f32(1e-38), "REAL32"),
-               (O.DATA_TYPES["REAL64"][0], -1.2345678901234567e-05, "REAL64"), (O.DATA_TYPES["REAL64"][0], 0.1 + 0.2, "REAL64"), (O.DATA_TYPES["REAL64"][0], 1.7976931348623157e308, "REAL64")]
+               (O.DATA_TYPES["REAL64"][0], -1.2345678901234567e-05, "REAL64"), (O.DATA_TYPES["REAL64"][0], 0.1 + 0.2, "REAL64"), (O.DATA_TYPES["REAL64"][0], 1.7976931348623157e308, "REAL64"),
+               # a REAL object whose value was given as a Python int in code (var.default = 2): the branch is chosen by the data type
+               (O.DATA_TYPES["REAL32"][0], 2, "REAL32"), (O.DATA_TYPES["REAL64"][0], -3, "REAL64"), (O.DATA_TYPES["REAL64"][0], 0, "REAL64")]
     for code, val, what in fprobes:
         r = partial_eval(folder, rv.node, rv.mod, None, {"var_type": code, "value": val})
         text = r[1] if r[0] == "return" and isinstance(r[1], str) else _revert_text(folder, rv, code, val)
-        if r[0] == "return" and isinstance(r[1], float):
+        if r[0] == "return" and isinstance(r[1], (int, float)) and not isinstance(r[1], bool) and type(val) is int:
+            chk.check(r[1] == val, "R2", f"{E}:_revert_variable | {what} {val!r} handed on unchanged", rv.loc(), f"{r[1]!r} != {val!r}")
+        elif r[0] == "return" and isinstance(r[1], float):
             chk.check(r[1] == val, "R2", f"{E}:_revert_variable | {what} {val!r} handed on unchanged", rv.loc(), f"{r[1]!r} != {val!r}")
         elif text is not None:
             try:
@@ -125,7 +129,8 @@ def run(chk):
                 back = None
             same = back is not None and (back == val or (what == "REAL32" and abs(back) < 3.5e38 and f32(back) == f32(val)))
             chk.check(same, "R2", f"{E}:_revert_variable | {what} {val!r} written as {text!r}", rv.loc(),
-                      f"re-import reads {back!r} instead of {val!r}: the text keeps too few digits")
+                      (f"re-import reads {back!r} instead of {val!r}: the text keeps too few digits" if back is not None else
+                       f"the importer's float({text!r}) raises ValueError, which build_variable swallows: the value of the REAL object is lost on re-import"))
         else:
             chk.unk("R2", f"{E}:_revert_variable | {what}", rv.loc(), f"float branch not specialised: {r}")
     # byte-string and text defaults: what the reverter writes is what the converter reads back; None stays None
@@ -488,4 +493,12 @@ def _revert_text(folder, rv, code, val):
                     return None
                 return x if isinstance(x, str) else str(x)
         return None
-    return run(rv.node.body)
+    r0 = run(rv.node.body)
+    if r0 is not None:
+        return r0
+    # the general specialiser (assignments to locals, nested ifs, isinstance on the probe value)
+    from .common import partial_eval as _pe
+    r = _pe(folder, rv.node, rv.mod, None, env)
+    if r[0] == "return" and r[1] is not None:
+        return r[1] if isinstance(r[1], str) else str(r[1])
+    return None
